@@ -9,6 +9,9 @@ Definition arr := Z -> Z.
 Definition upd (a : arr) (k v : Z) : arr := fun j => if Z.eqb j k then v else a j.
 Definition zeros : arr := fun _ => 0.
 
+(** a[:n] = 0 *)
+Definition zero_prefix (a : arr) (n : Z) : arr := fun k => if (0 <=? k) && (k <? n) then 0 else a k.
+
 (** [iter n body s]: the Python loop [for i in range(n): s = body i s] *)
 Fixpoint iter {St : Type} (n : nat) (body : Z -> St -> St) (s : St) : St :=
   match n with O => s | S m => body (Z.of_nat m) (iter m body s) end.
